@@ -52,10 +52,12 @@ func (st *SplitTracker) TrackAssigned(shards []SourceSplitterShard) {
 
 	for _, shard := range shards {
 		st.assignedSplits[shard.ShardID] = struct{}{}
-	}
 
-	if len(shards) > 0 {
-		st.LastAssignedSplitID = shards[len(shards)-1].ShardID
+		// Shard discovery resumes after this ID. It must never move backwards,
+		// otherwise finished shards are listed and assigned again.
+		if shard.ShardID > st.LastAssignedSplitID {
+			st.LastAssignedSplitID = shard.ShardID
+		}
 	}
 }
 
